@@ -170,15 +170,15 @@ fn legal_offsets(text: &str) -> Vec<usize> {
         .collect()
 }
 
-fn resolve(text: &str, legal: &[usize], last: usize, a: u32, b: u32) -> usize {
+fn resolve(text: &str, rows: &[(usize, usize)], line_ends: &[usize], legal: &[usize], last: usize, a: u32, b: u32) -> usize {
     // candidates at or after `last`
     let from = legal.partition_point(|&o| o < last);
     let cand = &legal[from..];
     if cand.is_empty() {
         return last;
     }
-    let rows = model::rows(text);
-    let cur_row = rows.iter().rposition(|&(s, _)| s <= last).unwrap_or(0);
+    let _ = text;
+    let cur_row = rows.partition_point(|&(s, _)| s <= last).saturating_sub(1);
     let pick = |v: &[usize], sel: u32| v[sel as usize % v.len()];
     match a % 8 {
         0 => cand[0].max(last),                         // same offset again (or first legal one)
@@ -210,7 +210,7 @@ fn resolve(text: &str, legal: &[usize], last: usize, a: u32, b: u32) -> usize {
             let v: Vec<usize> = cand
                 .iter()
                 .copied()
-                .filter(|&o| rows.iter().any(|&(s, e)| o == s || o == e) || model::split_lines(text).iter().any(|l| l.end == o))
+                .filter(|&o| rows.binary_search_by_key(&o, |&(s, _)| s).is_ok() || line_ends.binary_search(&o).is_ok() || o == rows[rows.len() - 1].1)
                 .collect();
             if v.is_empty() { cand[0] } else { pick(&v, b) }
         }
@@ -227,7 +227,9 @@ pub fn execute(case: &Case, stats: &mut Stats) -> Outcome {
     let mut dg = Digest::default();
     dg.str(text);
     let legal = legal_offsets(text);
-    let rows = model::rows(text);
+    let table = model::RowTable::new(text);
+    let rows = &table.rows;
+    let line_ends: Vec<usize> = model::split_lines(text).iter().map(|l| l.end).collect();
     let has_bom = text.starts_with(model::BOM);
     if has_bom {
         stats.bump(C::probe_bom_text as usize);
@@ -283,7 +285,7 @@ pub fn execute(case: &Case, stats: &mut Stats) -> Outcome {
             }
             K::RandomProbe => {
                 let o = legal[op.a as usize % legal.len()];
-                let want = model::row_col(text, o);
+                let want = table.row_col(o);
                 match guarded(|| rnd.locate(TextSize::new(o as u32))) {
                     Ok(got) => {
                         dg.word(o as u64);
@@ -306,14 +308,14 @@ pub fn execute(case: &Case, stats: &mut Stats) -> Outcome {
                 let o = if zero {
                     0
                 } else if op.k == K::LocateZero {
-                    resolve(text, &legal, last, 0, 0)
+                    resolve(text, rows, &line_ends, &legal, last, 0, 0)
                 } else {
-                    resolve(text, &legal, last, op.a, op.b)
+                    resolve(text, rows, &line_ends, &legal, last, op.a, op.b)
                 };
                 dg.word(o as u64);
-                let want = model::row_col(text, o);
+                let want = table.row_col(o);
                 // reach probes
-                let from_row = rows.iter().rposition(|&(s, _)| s <= last).unwrap_or(0);
+                let from_row = table.row_of(last);
                 let to_row = want.0 as usize - 1;
                 match to_row.saturating_sub(from_row) {
                     0 if o == last && located_any => stats.bump(C::probe_same_offset_twice as usize),
